@@ -89,13 +89,17 @@ def mk_int(e):
 
 
 class SBool:
-    __slots__ = ("e",)
+    __slots__ = ("_e",)
 
     def __init__(self, e):
-        self.e = e
+        self._e = e
+
+    @property
+    def e(self):
+        return self._e
 
     def __bool__(self):
-        return ENGINE.branch(self.e)
+        return ENGINE.branch(self._e)
 
     def __and__(self, o):
         if o is True:
@@ -141,6 +145,39 @@ class SBool:
         return mk_int(z3.If(self.e, 1, 0)) + o
 
     __radd__ = __add__
+
+
+class SAtom(SBool):
+    """Unary code-point atom `cp in ivs` over a leaf code point; its z3 term is built lazily
+    (only when the interval pre-solver cannot decide it or an obligation needs it)."""
+
+    __slots__ = ("cid", "ivs", "z", "key")
+    _n = 0
+
+    def __init__(self, cid, ivs, z):
+        self._e = None
+        self.cid = cid
+        self.ivs = ivs
+        self.z = z
+        SAtom._n += 1
+        self.key = -SAtom._n
+
+    @property
+    def e(self):
+        e = self._e
+        if e is None:
+            z = self.z
+            alts = [(z == lo) if lo == hi else z3.And(z >= lo, z <= hi) for lo, hi in self.ivs]
+            e = z3.BoolVal(False) if not alts else (z3.Or(*alts) if len(alts) > 1 else alts[0])
+            self._e = e
+            ATOM_BY_EID[e.get_id()] = self
+        return e
+
+    def __bool__(self):
+        return ENGINE.branch(self)
+
+
+ATOM_BY_EID: dict = {}
 
 
 def b_and(*xs):
@@ -307,6 +344,7 @@ def s_ite(c, a, b):
 
 ATOM_META: dict = {}   # z3 ast id of an atom -> (cp id, interval tuple): atom == "cp in ivs"
 CP_OF_Z: dict = {}     # z3 ast id of a leaf code-point constant -> cp id
+CP_ZVAR: dict = {}     # cp id -> z3 constant
 _IV_CACHE: dict = {}
 _VARS_CACHE: dict = {}
 
@@ -348,6 +386,10 @@ def iv_split(dom, ivs):
 
 def cps_in(e):
     """ids of leaf code-point constants occurring in z3 expr e."""
+    if isinstance(e, SBool):
+        if type(e) is SAtom:
+            return {e.cid}
+        e = e.e
     eid = e.get_id()
     r = _VARS_CACHE.get(eid)
     if r is not None:
@@ -452,7 +494,7 @@ class Engine:
             return
         if cond is False:
             raise PathAbort("assume(False)")
-        if not self.branch(cond.e if isinstance(cond, SBool) else cond, assume=True):
+        if not self.branch(cond if type(cond) is SAtom else (cond.e if isinstance(cond, SBool) else cond), assume=True):
             raise PathAbort("assumption not met")
 
     def _get_model(self):
@@ -465,9 +507,9 @@ class Engine:
             self.model = self.solver.model()
         return self.model
 
-    def _learn(self, e, eid, taken, meta, forked):
-        """Record the outcome of a decision on expr e for the rest of this path."""
-        self.known[eid] = (taken, e)
+    def _learn(self, c, key, taken, meta, forked):
+        """Record the outcome of a decision for the rest of this path."""
+        self.known[key] = (taken, c)
         if meta is not None:
             cid, ivs = meta
             cur = self.dom.get(cid)
@@ -475,45 +517,71 @@ class Engine:
                 inter, diff = iv_split(cur, ivs)
                 self.dom[cid] = inter if taken else diff
         elif forked:
-            for cid in cps_in(e):
+            for cid in cps_in(c):
                 self.tainted.add(cid)
 
-    def branch(self, e, assume=False, payload=None) -> bool:
-        if isinstance(e, bool):
-            return e
+    def branch(self, c, assume=False, payload=None) -> bool:
+        """c: z3 BoolRef | SAtom | bool."""
+        if isinstance(c, bool):
+            return c
         self.steps += 1
         if self.steps > self.max_steps:
             raise StepBudget()
         if (self.steps & 1023) == 0 and self.hard_deadline is not None and time.time() > self.hard_deadline:
             raise Deadline()
-        eid = e.get_id()
-        v = self.known.get(eid)
-        if v is not None:
-            return v[0]
-        if not assume and z3.is_not(e):
-            return not self.branch(e.arg(0), payload=payload)
-        meta = ATOM_META.get(eid)
+        if type(c) is SAtom:
+            atom = c
+        else:
+            eid = c.get_id()
+            v = self.known.get(eid)
+            if v is not None:
+                return v[0]
+            if not assume and z3.is_not(c):
+                return not self.branch(c.arg(0), payload=payload)
+            atom = ATOM_BY_EID.get(eid)
+            key = eid
+            meta = None
         dom_fork = False
-        if meta is not None and not assume:
+        if atom is not None:
+            key = atom.key
+            v = self.known.get(key)
+            if v is not None:
+                return v[0]
+            meta = (atom.cid, atom.ivs)
+            c = atom
+            if not assume:
+                cur = self.dom.get(atom.cid)
+                if cur is not None:
+                    inter, diff = iv_split(cur, atom.ivs)
+                    if not inter or not diff:
+                        val = bool(inter)
+                        if self.paranoid:
+                            self._paranoid(atom.e, val)
+                        self.known[key] = (val, c)
+                        self.shortcuts += 1
+                        return val
+                    if atom.cid not in self.tainted and not self.all_tainted:
+                        dom_fork = True
+        return self._branch_general(c, key, meta, assume, payload, dom_fork)
+
+    def _constraint(self, c, taken, meta):
+        """The z3 constraint asserted for a decision.  For unary code-point atoms the resulting
+        domain is asserted when that is more compact than the character-class disjunction; under
+        the path condition both are equivalent."""
+        if meta is not None:
             cid, ivs = meta
             cur = self.dom.get(cid)
-            if cur is not None:
+            z = CP_ZVAR.get(cid)
+            if cur is not None and z is not None:
                 inter, diff = iv_split(cur, ivs)
-                if not inter:
-                    if self.paranoid:
-                        self._paranoid(e, False)
-                    self.known[eid] = (False, e)
-                    self.shortcuts += 1
-                    return False
-                if not diff:
-                    if self.paranoid:
-                        self._paranoid(e, True)
-                    self.known[eid] = (True, e)
-                    self.shortcuts += 1
-                    return True
-                if cid not in self.tainted and not self.all_tainted:
-                    dom_fork = True
-        return self._branch_general(e, eid, meta, assume, payload, dom_fork)
+                nd = inter if taken else diff
+                if len(nd) <= max(6, len(ivs)):
+                    alts = [(z == lo) if lo == hi else z3.And(z >= lo, z <= hi) for lo, hi in nd]
+                    if not alts:
+                        return z3.BoolVal(False)
+                    return z3.Or(*alts) if len(alts) > 1 else alts[0]
+        e = c.e if isinstance(c, SBool) else c
+        return e if taken else z3.Not(e)
 
     def _paranoid(self, e, expect, both=False):
         self.paranoid_checks = getattr(self, "paranoid_checks", 0) + 1
@@ -524,12 +592,12 @@ class Engine:
         if not ok:
             raise RuntimeError("symx: interval pre-solver disagrees with z3 on %s (expected %s)" % (e, "both" if both else expect))
 
-    def _branch_general(self, e, eid, meta, assume, payload, dom_fork=False) -> bool:
+    def _branch_general(self, c, key, meta, assume, payload, dom_fork=False) -> bool:
         d = self.depth
         if d < len(self.trace):
             self.depth = d + 1
             t = self.trace[d]
-            self._learn(e, eid, t[1], meta, t[3])
+            self._learn(c, key, t[1], meta, t[3])
             return t[1]
         self.forks += 1
         if self.forks > self.max_forks:
@@ -545,44 +613,44 @@ class Engine:
             forked = bool(code & 2)
             if forked:
                 self.solver.push()
-                self.solver.add(e if taken else z3.Not(e))
-            self.trace.append([e, taken, False, forked, None, payload])
+                self.solver.add(self._constraint(c, taken, meta))
+            self.trace.append([c, taken, False, forked, None, payload, meta, None])
             self.depth = d + 1
             self.model = None
-            self._learn(e, eid, taken, meta, forked)
+            self._learn(c, key, taken, meta, forked)
             return taken
         if dom_fork:
             # both sides feasible by the (exact, untainted) interval domain: fork without a solver call
             if self.paranoid:
-                self._paranoid(e, None, both=True)
+                self._paranoid(c.e, None, both=True)
             self.shortcuts += 1
+            neg = self._constraint(c, False, meta)
             self.solver.push()
-            self.solver.add(e)
-            self.trace.append([e, True, True, True, None, payload])
+            self.solver.add(self._constraint(c, True, meta))
+            self.trace.append([c, True, True, True, None, payload, meta, neg])
             self.stats["forks"] += 1
             self.depth = d + 1
             self.model = None
-            self._learn(e, eid, True, meta, True)
+            self._learn(c, key, True, meta, True)
             return True
+        e = c.e if isinstance(c, SBool) else c
         if assume:
             r = self._check(e)
             if r == z3.unknown:
                 raise Unsupported("solver unknown (assume)")
             if r == z3.unsat:
                 raise PathAbort("assumption infeasible")
-            # is the negation feasible at all?  if not, forced; else constrain (no alternative explored)
             self.solver.push()
             self.solver.add(e)
-            self.trace.append([e, True, False, True, None, payload])
+            self.trace.append([c, True, False, True, None, payload, meta, None])
             self.depth = d + 1
             self.model = None
-            self._learn(e, eid, True, meta, True)
+            self._learn(c, key, True, meta, True)
             return True
         m = self._get_model()
         mv = m.eval(e, model_completion=True)
         taken = z3.is_true(mv)
         if not taken and not z3.is_false(mv):
-            # model could not decide (should not happen with completion)
             r = self._check(e)
             taken = r == z3.sat
         other = z3.Not(e) if taken else e
@@ -591,15 +659,16 @@ class Engine:
             raise Unsupported("solver unknown (fork)")
         if r == z3.sat:
             om = self.solver.model()
+            neg = self._constraint(c, not taken, meta)
             self.solver.push()
-            self.solver.add(e if taken else z3.Not(e))
-            self.trace.append([e, taken, True, True, om, payload])
+            self.solver.add(self._constraint(c, taken, meta))
+            self.trace.append([c, taken, True, True, om, payload, meta, neg])
             self.stats["forks"] += 1
         else:
-            self.trace.append([e, taken, False, False, None, payload])
+            self.trace.append([c, taken, False, False, None, payload, meta, None])
             self.stats["forced"] += 1
         self.depth = d + 1
-        self._learn(e, eid, taken, meta, r == z3.sat)
+        self._learn(c, key, taken, meta, r == z3.sat)
         return taken
 
     # -- concretisation by exhaustive case split
@@ -792,7 +861,11 @@ class Engine:
             self.solver.push()
             ent[1] = not ent[1]
             ent[2] = False
-            self.solver.add(ent[0] if ent[1] else z3.Not(ent[0]))
+            if ent[7] is not None:
+                self.solver.add(ent[7])
+            else:
+                e0 = ent[0].e if isinstance(ent[0], SBool) else ent[0]
+                self.solver.add(e0 if ent[1] else z3.Not(e0))
             self.model = ent[4]
             ent[4] = None
 
